@@ -42,26 +42,34 @@ inductive Kind where
   | var | fn | mixin
   deriving DecidableEq, Repr, Inhabited
 
-/-- One switch per deviation of the code from the property. `true` = behaviour as found. -/
+/-- One switch per deviation of the code from the property that was found. `true` = behaviour as
+    found at the time; all five are repaired in /repo by `fix:` commits, so the code as it stands
+    (`Switches.now`) has every switch off.  The old variants stay for the `C12_asFound_…` witnesses
+    and for classifying a regression. -/
 structure Switches where
-  /-- D7 (fixed by a `fix:` commit): `forwarded_map` ignored the show/hide lists. -/
+  /-- D7 (fixed, 8af3fae): `forwarded_map` ignored the show/hide lists. -/
   ignoreLists : Bool
-  /-- map_view.rs:169 `PrefixedMapView::keys` keeps only upstream keys that already start with the
-      prefix (copy of `UnprefixedMapView::keys`), instead of prefixing every key. -/
+  /-- F1 (fixed, cb68e5b): `PrefixedMapView::keys` (map_view.rs:169) kept only upstream keys that
+      already start with the prefix (copy of `UnprefixedMapView::keys`). -/
   prefixedKeysBug : Bool
-  /-- ast/stmt.rs:340 `Configuration::with_values` drops the span: a configuration passed through
-      `@forward` is always implicit, so a `@forward … with` below it is never checked. -/
+  /-- F2 (fixed, e12a9ef): `Configuration::with_values` (ast/stmt.rs:340) dropped the span: a
+      configuration passed through `@forward` was always implicit, so a `@forward … with` below it
+      was never checked.  Now the span of the source configuration is kept. -/
   fwdCfgImplicit : Bool
-  /-- map_view.rs:129/179/257 `iter()` is `unimplemented!()` for the view types used by
-      `through_forward`; visitor.rs:348 calls it. -/
+  /-- F3 (fixed, 278f1b5): `iter()` was `unimplemented!()` for the view types used by
+      `through_forward` and visitor.rs:348 calls it.  Now `MapView::iter` defaults to
+      `keys().filter_map(get)` (map_view.rs:24). -/
   viewIterPanics : Bool
-  /-- map_view.rs:299 `MergedMapView::insert` is `unreachable!()` for an unknown key. -/
+  /-- F4 (fixed, 7ee64b7): `MergedMapView::insert` (map_view.rs:292) was `unreachable!()` for an
+      unknown key.  Now it returns `None`, which `update_var` reports as "Undefined variable.". -/
   mergedInsertPanics : Bool
   deriving DecidableEq, Repr
 
 def Switches.spec : Switches := ⟨false, false, false, false, false⟩
-/-- the code as it stands in /repo now -/
-def Switches.now : Switches := ⟨false, true, true, true, true⟩
+/-- the code as it stands in /repo now: the specified behaviour -/
+def Switches.now : Switches := ⟨false, false, false, false, false⟩
+/-- the tree after the D7 fix and before the fixes of F1–F4 -/
+def Switches.beforeFixes : Switches := ⟨false, true, true, true, true⟩
 /-- the pinned tree (before the D7 fix) -/
 def Switches.pinned : Switches := ⟨true, true, true, true, true⟩
 
@@ -781,6 +789,7 @@ def rdMods : Nat → List String → Option (Project × List String)
 
 def rdSwitches (s : String) : Option Switches :=
   if s == "spec" then some .spec else if s == "now" then some .now else if s == "pinned" then some .pinned
+  else if s == "beforeFixes" then some .beforeFixes
   else if s == "only:ignoreLists" then some { Switches.spec with ignoreLists := true }
   else if s == "only:prefixedKeysBug" then some { Switches.spec with prefixedKeysBug := true }
   else if s == "only:fwdCfgImplicit" then some { Switches.spec with fwdCfgImplicit := true }
